@@ -111,7 +111,7 @@ CLAIMED["C09"] = dict(category="model_checking",
     design="6/C09", technique="TLA+ chain model + TLC (SealPreserves, Unforgeability on sealed tokens); spec->code replay incl. sealed Authz instances",
     note=CHAIN_NOTE)
 CLAIMED["C16"] = dict(category="model_checking",
-    text="Chain.tla IdPreserved and LookupExact over all honest histories with identifiers {absent, 7, 2^32-1, 0} and five key maps; refuted for "
+    text="Chain.tla IdPreserved and LookupExact over all honest histories with identifiers {absent, 7, 2^32-1, 0} and six key maps; refuted for "
          "the pinned tree's Append/Seal. Replay compares RootKeyID() along every derivation and the outcome class of each lookup "
          "(ok / ErrNoPublicKeyAvailable / signature error) with the model.",
     design="6/C16", technique="TLA+ chain model + TLC (IdPreserved, LookupExact); spec->code replay of all honest histories x key maps",
